@@ -31,7 +31,14 @@ EXTRA_FILES = {
     'include/unifex/thread_unsafe_event_loop.hpp': ['C06'], 'source/thread_unsafe_event_loop.cpp': ['C06'],
     # files that manipulate async stack frames (C20's bookkeeping clause) but are missing from its anchor list
     'include/unifex/stop_if_requested.hpp': ['C20'], 'include/unifex/at_coroutine_exit.hpp': ['C20'], 'include/unifex/unhandled_done.hpp': ['C20'],
-    'include/unifex/with_scheduler_affinity.hpp': ['C20'], 'include/unifex/sender_concepts.hpp': ['C20'],
+    'include/unifex/with_scheduler_affinity.hpp': ['C20', 'C10'], 'include/unifex/sender_concepts.hpp': ['C20'],
+    # implementation dependencies that a property's anchor list leaves out: every co_await in a task<> goes through
+    # with_scheduler_affinity -> finally -> unstoppable; futures and scopes own an inplace_stop_source and a v1 event;
+    # stop_on_request registers one callback per fused token
+    'include/unifex/finally.hpp': ['C10', 'C11'], 'include/unifex/unstoppable.hpp': ['C10'],
+    'include/unifex/inplace_stop_token.hpp': ['C09', 'C10', 'C08'], 'source/inplace_stop_token.cpp': ['C09', 'C08'],
+    'include/unifex/v1/async_manual_reset_event.hpp': ['C08', 'C09'], 'source/async_manual_reset_event_v1.cpp': ['C08', 'C09'],
+    'include/unifex/stop_on_request.hpp': ['C03'],
 }
 TRIVIAL = {'move', 'forward', 'addressof', 'get', 'as_const', 'declval', 'operator*', 'operator->', 'static_cast', 'size', 'begin', 'end',
            'operator()', 'operator bool', 'get_stop_token', 'get_scheduler', 'get_allocator'}
